@@ -187,4 +187,50 @@ theorem octet_inj {a b c d : Nat} (ha : a < 16) (hb : b < 16) (hc : c < 16) (hd 
   rw [lo_octet ha hb, lo_octet hc hd] at h2
   exact ⟨h1, h2⟩
 
+
+/-! ### the vocabulary of C11 and the buffer `EncodeSuci` builds -/
+
+/-- an IMSI as the property reads it: 3-digit MCC, 2- or 3-digit MNC, an MSIN of at least one digit
+    (a legal IMSI has at most 15 digits, i.e. MSIN length ≤ 10; no upper bound is needed below) -/
+structure ValidImsi (mcc mnc msin : List Nat) : Prop where
+  mcc3 : mcc.length = 3
+  mnc23 : mnc.length = 2 ∨ mnc.length = 3
+  msin1 : 1 ≤ msin.length
+  digits : ∀ d ∈ mcc ++ mnc ++ msin, d < 10
+
+/-- what `EncodeSuci(imsi, len(mnc))` returns for a valid IMSI, as octets of figure 9.11.3.4.3 -/
+theorem suci_buffer {mcc mnc msin : List Nat} (h : ValidImsi mcc mnc msin) :
+    ∃ o5 o6 o7, Spec.Identity.plmn3 mcc mnc = some [o5, o6, o7] ∧
+      Model.Suci.encodeSuci (asc (mcc ++ mnc ++ msin)) (mnc.length : Int) =
+        .ok ([0x01, o5, o6, o7, 0xf0, 0xff, 0x00, 0x00] ++ Spec.Identity.bcdEncode msin) := by
+  obtain ⟨h3, h23, _, hd⟩ := h
+  match mcc, h3 with
+  | [c1, c2, c3], _ =>
+    rcases h23 with h2 | h3'
+    · match mnc, h2 with
+      | [n1, n2], _ =>
+        have hd' : ∀ d ∈ [c1, c2, c3, n1, n2] ++ msin, d < 10 := fun d hm => hd d (by simpa using hm)
+        refine ⟨_, _, _, ?_, encodeSuci_mnc2 msin hd'⟩
+        have : (Spec.Identity.allDigits [c1, c2, c3] && Spec.Identity.allDigits [n1, n2]) = true := by
+          simp [Spec.Identity.allDigits, Spec.Identity.isDigit, hd' c1, hd' c2, hd' c3, hd' n1, hd' n2]
+        simp [Spec.Identity.plmn3, this]
+    · match mnc, h3' with
+      | [n1, n2, n3], _ =>
+        have hd' : ∀ d ∈ [c1, c2, c3, n1, n2, n3] ++ msin, d < 10 := fun d hm => hd d (by simpa using hm)
+        refine ⟨_, _, _, ?_, encodeSuci_mnc3 msin hd'⟩
+        have : (Spec.Identity.allDigits [c1, c2, c3] && Spec.Identity.allDigits [n1, n2, n3]) = true := by
+          simp [Spec.Identity.allDigits, Spec.Identity.isDigit, hd' c1, hd' c2, hd' c3, hd' n1, hd' n2, hd' n3]
+        simp [Spec.Identity.plmn3, this]
+
+/-- the independent decoder reads the buffer back as the null-scheme SUCI of the IMSI -/
+theorem suci_decodes {mcc mnc msin : List Nat} (h : ValidImsi mcc mnc msin) :
+    ∃ buf, Model.Suci.encodeSuci (asc (mcc ++ mnc ++ msin)) (mnc.length : Int) = .ok buf ∧
+      Spec.Identity.decodeSuci buf = some (Spec.Identity.nullSchemeSuci mcc mnc msin) := by
+  obtain ⟨o5, o6, o7, hp, hb⟩ := suci_buffer h
+  refine ⟨_, hb, ?_⟩
+  have hm : ∀ d ∈ msin, d < 10 := fun d hd => h.digits d (by simp [hd])
+  have hne : msin ≠ [] := by
+    intro e; have := h.msin1; simp [e] at this
+  exact decodeSuci_shape _ _ _ _ mcc mnc msin (plmn3Decode_plmn3 mcc mnc _ hp) (bcdDecode_encode msin hm) hne
+
 end Stgutg.Proofs.Suci
